@@ -339,6 +339,8 @@ func runC02(c *Ctx) {
 	}
 
 	verifyCommitRules(c)
+	// "of the right validator set": block validation verifies the last commit against the previous set (imported)
+	validateBlockChecklist(c)
 
 	// ---- MakeCommit -------------------------------------------------------------------------------
 	if fn := c.Fn("types", "VoteSet", "MakeCommit"); fn != nil {
